@@ -32,7 +32,8 @@ RULE = ("programs = body x wrapper x limit: bodies {while-true, counting loop, r
         "nested #invoke THEN loop, expandTemplate of a looping template, calls to _lua_set_timeout/_lua_clear_timeout_hook when "
         "reachable, error-swallowing loop} x limit {0.5,1,2,None}, each followed by 1-5 benign invocations. non-trivial = distinct "
         "(body, wrapper, limit) whose execution polled the virtual clock at least once")
-ASSUMPTIONS = ["virtual time: one poll of the product's hook (100 000 VM instructions) = 0.25 s; 'small bound' B = 3 polls after the product's own deadline condition becomes true",
+ASSUMPTIONS = ["virtual time: a poll of the product's hook advances the clock by 2.5 microseconds per VM instruction of the period the hook was armed with (0.25 s per 100 000 instructions); 'small bound' B = 3 polls after the product's own deadline condition becomes true",
+               "CPU clock (second part): os.time = whole CPU seconds used by the forked process; bound = limit + 8 s of CPU; the library calls in those loops cost 1-10 ms each",
                "single C calls that never return to the VM (string.rep('x',1e9)) are outside the stated grammar",
                "Lua stand-ins for the absent Scribunto ustring/libraryUtil files",
                "each program runs in a fork of an initialised context (same start state for every program)"]
@@ -89,21 +90,41 @@ WRAPPERS = ["none", "pcall", "xpcall", "pcall-outer-loop", "nested-pcall", "swal
 # without any callback into Python is running Lua where the count hook cannot fire.
 CHILD_CPU_CAP = 30
 
+# ---- second clock: CPU time.  The virtual clock counts polls, so it cannot see how much real time passes BETWEEN two
+# polls.  Loops whose iterations are few VM instructions but expensive library calls (the library call is one
+# instruction for the count hook) are run with os.time = start + the CPU seconds this process has used (load
+# independent): the invocation has to come back within limit + CPU_BOUND seconds of CPU.
+CPU_BOUND = 8            # 2 s of whole-second granularity of the product's own comparison + 6 s slack
+CPU_KILL_EXTRA = 20      # RLIMIT_CPU: limit + this; a program still running then is reported as never aborted
+CPU_BODIES = {
+    # (library calls of 1-10 ms: a period of 100 000 instructions of such a loop is about a minute of CPU)
+    "tight-loop(control)": "local i = 0 while true do i = i + 1 end",
+    "rep-1MB": "while true do string.rep('x', 1e6) end",
+    "concat-2e4": "local t = {} for i = 1, 2e4 do t[i] = i end while true do table.concat(t) end",
+    "gsub-200kB": "local s = string.rep('ab', 1e5) while true do s:gsub('a', 'c') end",
+    "upper-1MB": "local s = string.rep('x', 1e6) while true do s:upper() end",
+    "sort-2e4": "local t = {} for i = 1, 2e4 do t[i] = (i * 7919) % 100003 end while true do table.sort(t) end",
+    "find-20MB": "local s = string.rep('a', 2e7) while true do s:find('b') end",
+    "format-5MB": "local s = string.rep('x', 5e6) while true do string.format('%s%s', s, s) end",
+}
+CPU_WRAPPERS = ["none", "pcall", "xpcall-handler-constant"]
+
 
 def floors(tier):
     return {"oracle.R1-aborted-within-B-polls": 60, "oracle.R3-timeout-element": 60, "oracle.followup==fresh": 100,
             "sets.body-wrapper-pairs": 300, "counters.hook.arm": 100, "counters.polls": 500, "counters.invocation-depth>=2": 10,
-            "counters.followups-after-time-jump": 20, "counters.disturbances": 50}
+            "counters.followups-after-time-jump": 20, "counters.disturbances": 50,
+            "oracle.R1cpu-aborted-within-cpu-bound": 12}
 
 
 def shards(tier, seed):
     per = {"quick": 60, "thorough": 600}[tier]
-    return [{"seed": seed * 1000 + i, "n": per, "idx": i} for i in range(16)]
+    return [{"seed": seed * 1000 + i, "n": per, "idx": i, "tier": tier} for i in range(16)]
 
 
 def program(body_name, wrapper, n):
     """Returns (module pages, invoke wikitext, may_error)."""
-    body, may_error = BODIES[body_name]
+    body, may_error = BODIES[body_name] if body_name in BODIES else (CPU_BODIES[body_name], False)
     name = "p%d" % n
     pages = []
     fn = "local function spin(frame)\n" + body + "\nend\n"
@@ -174,6 +195,7 @@ class Parent:
         self.clock = VClock(self.ctx, max_polls=10 ** 9)
         # debug.sethook only accepts Lua functions: wrap Python callables
         self.lua_fn = self.ctx.lua.eval("function(f) return function() f() end end")
+        self.lua_same = self.ctx.lua.eval("function(a, b) return rawequal(a, b) end")
         self.depth = 0
         self.maxdepth = 0
         self.on_enter = None
@@ -260,6 +282,12 @@ def child_run(par, prog, limit, followups, jump, wfd):
             if par.depth >= 1:
                 return real_sethook(par.lua_fn(monitor_tick), "", 100000)
             return real_sethook()
+        clock.note_period(a)
+        if clock.armed and state.get("hookfn") is not None and par.lua_same(a[0], state["hookfn"]):
+            # the armed hook function re-arms ITSELF (other period / mask): the product's start_time is unchanged
+            clock.events.append(("rearm-by-hook", clock.polls, par.depth))
+            return real_sethook(*a)
+        state["hookfn"] = a[0]
         clock.events.append(("arm", clock.polls, par.depth))
         clock.armed = True
         state["arms"] += 1
@@ -355,13 +383,61 @@ def child_run(par, prog, limit, followups, jump, wfd):
     finish(0)
 
 
-def run_program(par, prog, limit, followups, jump):
+def child_run_cpu(par, prog, limit, followups, jump, wfd):
+    """Forked child, CPU clock: os.time = 1000 + whole CPU seconds used by this process since the program started."""
+    import resource
+    ctx, clock = par.ctx, par.clock
+    t0 = time.process_time()
+    polls = [0]
+
+    def cpu_time(*a):
+        if a and a[0] is not None:
+            return clock.real_time(*a)
+        polls[0] += 1
+        return 1000 + int(time.process_time() - t0)
+    clock.G.os.time = cpu_time
+    clock.G.debug.sethook = clock.real_sethook
+    hard = resource.getrlimit(resource.RLIMIT_CPU)[1]
+    cap = int(t0) + int(limit) + CPU_KILL_EXTRA
+    if hard != resource.RLIM_INFINITY:
+        cap = min(cap, hard)
+    resource.setrlimit(resource.RLIMIT_CPU, (cap, hard))
+    for title, ns, body in prog["pages"]:
+        ctx.add_page(title, ns, body, model="Scribunto" if ns == 828 else "wikitext")
+    try:
+        type(ctx).get_page.cache_clear()
+    except AttributeError:
+        pass
+    ctx.start_page("Pg")
+    rep = {"followups": []}
+    t1 = time.process_time()
+    try:
+        rep["result"] = ctx.expand(prog["call"], timeout=limit)
+    except BaseException as e:      # noqa
+        rep["result"] = None
+        rep["exception"] = "%s: %s" % (type(e).__name__, str(e)[:300])
+    rep["cpu"] = time.process_time() - t1
+    rep["polls"] = polls[0]
+    for c in followups:
+        try:
+            ctx.start_page("Pg")
+            r = ctx.expand(c)
+        except BaseException as e:  # noqa
+            r = "EXC %s: %s" % (type(e).__name__, str(e)[:200])
+        rep["followups"].append([c, r])
+    try:
+        os.write(wfd, json.dumps(rep, default=str).encode())
+    finally:
+        os._exit(0)
+
+
+def run_program(par, prog, limit, followups, jump, child=None):
     r, w = os.pipe()
     pid = os.fork()
     if pid == 0:
         os.close(r)
         try:
-            child_run(par, prog, limit, followups, jump, w)
+            (child or child_run)(par, prog, limit, followups, jump, w)
         finally:
             os._exit(7)
     os.close(w)
@@ -510,8 +586,56 @@ def run_shard(spec):
                 obs.count("followups-after-time-jump", len(rep.get("followups", [])))
         for sig, msg in probs:
             obs.violation(sig, msg[:600], case)
+    # ---- CPU-clock programs (split over the shards)
+    cpu_progs = [(b, w, lim) for b in sorted(CPU_BODIES) for w in CPU_WRAPPERS for lim in (1, 2)]
+    random.Random(spec["seed"] // 1000).shuffle(cpu_progs)
+    per_shard = {"quick": 1, "thorough": 3}[spec.get("tier", "quick")]
+    for k, (b, w, lim) in enumerate(cpu_progs[spec["idx"]::16][:per_shard] if exhausted < 3 else []):
+        n = spec["seed"] * 100000 + 90000 + k
+        pages, call, _ = program(b, w, n)
+        prog = {"body": b, "wrapper": w, "pages": pages, "call": call, "may_error": False}
+        fu = ["{{#invoke:b|sum}}", "{{#invoke:b|count}}"]
+        rep = run_program(par, prog, lim, fu, False, child=child_run_cpu)
+        case = {"body": b, "wrapper": w, "limit": lim, "followups": fu, "n": n, "clock": "cpu"}
+        probs = judge_cpu(par, prog, rep, lim)
+        if probs is None:
+            obs.inconclusive.append("cpu-clock program %s/%s: %s" % (b, w, rep.get("harness")))
+            continue
+        obs.case(["cpu", b, w, lim], nontrivial=True,
+                 sample={"clock": "cpu", "program": pages[-1][2][:300], "limit": lim, "cpu_seconds": rep.get("cpu"),
+                         "polls": rep.get("polls"), "result": (rep.get("result") or "")[:120]})
+        obs.add("cpu-clock-programs", b + "/" + w)
+        obs.check("R1cpu-aborted-within-cpu-bound")
+        if rep.get("cpu") is not None:
+            obs.maxi("max-cpu-seconds-over-limit", round(rep["cpu"] - lim, 2))
+        for sig, msg in probs:
+            obs.violation(sig, msg[:600], case)
     par.close()
     return obs
+
+
+def judge_cpu(par, prog, rep, limit):
+    tag = "%s/%s" % (prog["body"], prog["wrapper"])
+    kind = "control" if "control" in prog["body"] else "loop-over-expensive-library-calls"
+    if rep.get("cpu_exhausted"):
+        return [("R1cpu:not-aborted-within-limit+%ds-of-cpu/%s" % (CPU_KILL_EXTRA, kind),
+                 "program %s with limit %r s was still running after %d s of CPU (os.time = CPU clock of the process)" % (
+                     tag, limit, limit + CPU_KILL_EXTRA))]
+    if "harness" in rep:
+        return None
+    probs = []
+    out = rep.get("result")
+    if out is None:
+        probs.append(("expand-raised-out-of-invoke/cpu-clock", rep.get("exception", "")))
+    elif "Lua timeout error in Module:" not in out:
+        probs.append(("R3:no-timeout-element/cpu-clock/" + kind, "result=%r program=%s" % (out[:200], tag)))
+    if rep.get("cpu", 0) > limit + CPU_BOUND:
+        probs.append(("R1cpu:aborted-later-than-limit+%ds-of-cpu/%s" % (CPU_BOUND, kind),
+                      "program %s with limit %r s came back after %.1f s of CPU" % (tag, limit, rep["cpu"])))
+    for c, r in rep.get("followups", []):
+        if r != par.expected[c]:
+            probs.append(("followup-differs-from-fresh-context/cpu-clock", "after %s: %s -> %r, fresh context gives %r" % (tag, c, r[:200], par.expected[c])))
+    return probs
 
 
 def replay(case):
@@ -520,6 +644,11 @@ def replay(case):
     call = call * case.get("repeat", 1)
     prog = {"body": case["body"], "wrapper": case["wrapper"], "pages": pages, "call": call, "may_error": may_error,
             "disturb": case.get("disturb", [])}
+    if case.get("clock") == "cpu":
+        rep = run_program(par, prog, case["limit"], case["followups"], False, child=child_run_cpu)
+        probs = judge_cpu(par, prog, rep, case["limit"]) or []
+        par.close()
+        return {"violations": [p[0] for p in probs], "details": probs, "report": rep, "module": pages[-1][2]}
     rep = run_program(par, prog, case["limit"], case["followups"], case["jump"])
     if rep.get("cpu_exhausted"):
         par.close()
